@@ -33,6 +33,8 @@ def check(run):
     ec.run_family(run, 'C02-two-digit-bounds', 'Q_C02bigok', 'R_one', maxA=12)
     ec.run_family(run, 'C02-none-vs-empty', 'Q_C02none', 'R_2x2E', maxA=2 if quick else 3)
     ec.run_family(run, 'C02-join', 'Q_C02joinok', 'R_2x2', recsB='R_2x2', maxA=2 if quick else 2, maxB=2 if quick else 3)
+    # rbql-js/rbql.js is an anchor of this property too
+    ec.run_family_js(run, 'C02-js-order-distinct-top', 'Q_C02ok', 'R_2x2', maxA=2)
     # random cross product of every query kind x join x fault plan over ragged tables (tlc -simulate, seeded by VERIF_SEED)
     ec.run_family(run, 'C02-random-cross-product', 'Q_MIX', 'R_w2', recsB='R_w2', maxA=3, maxB=2, hdrmodes=(False, True), breakpoints=(0, 0, 0, 1, 2), simulate=1200 if quick else 20000, opts={'sim_next': 'SimNext2'})
     run.exhaustive = True
